@@ -347,4 +347,16 @@ example : sortByRowId [demoCell 2 .null, { demoCell 1 .null with rowId := .str (
 /-- `sqlite_headers_table`: a table that already has a column called sd_version -/
 example : (sqliteHeaders .tableLeaf [cps "sd_version", cps "a"] 0).toOption.map (fun hs => hs[1]?) = some (some (cps "sd_sd_version")) := by decide
 
+/-- the character class the CSV/XLSX exporters scrub is the one these theorems and known finding
+C11-D were written against (regenerated from constants.py on every run: a changed class breaks
+this obligation before any value is exported) -/
+theorem illegal_xml_ranges_as_assumed :
+    Generated.illegalXmlRanges =
+      [(0, 8), (11, 12), (14, 31), (127, 132), (134, 159), (55296, 57343), (64976, 64991), (65534, 65535),
+       (131070, 131071), (196606, 196607), (262142, 262143), (327678, 327679), (393214, 393215),
+       (458750, 458751), (524286, 524287), (589822, 589823), (655358, 655359), (720894, 720895),
+       (786430, 786431), (851966, 851967), (917502, 917503), (983038, 983039), (1048574, 1048575),
+       (1114110, 1114111)] := by decide
+
+
 end SqliteDissect.Properties.C11
